@@ -414,11 +414,11 @@ pub(crate) struct CaseResult {
     client_done: Option<bool>,
     server_done: Option<bool>,
     server_saw_conn: bool,
-    term_c: Option<String>,
-    term_s: Option<String>,
+    pub(crate) term_c: Option<String>,
+    pub(crate) term_s: Option<String>,
     /// full text of the terminal errors (for the report only, never compared)
-    term_detail: Vec<String>,
-    counts: std::collections::BTreeMap<&'static str, u64>,
+    pub(crate) term_detail: Vec<String>,
+    pub(crate) counts: std::collections::BTreeMap<&'static str, u64>,
     virt_ms: u64,
     expected_dirs: u64,
     complete_dirs: u64,
